@@ -302,7 +302,19 @@ def E_inplace(specs, code, targets, copy_code, pre="", copy_pre=None, copy_specs
             found.append((t, "copy-result-unavailable"))
             continue
         tgt = env[t]
-        aspect = E_cmp_values(E_bare(tgt), E_bare(r))
+        if umode == "physical":
+            # the target may carry another (commensurable) unit than the copying call: compare the quantities
+            if not (isinstance(tgt, unyt_array) and isinstance(r, unyt_array)) or tgt.units.dimensions != r.units.dimensions:
+                found.append((t, "target-units"))
+                continue
+            if not (tgt.units == r.units):
+                r = r.to(tgt.units)
+                aspect = E_cmp_values(E_bare(tgt), E_bare(r))
+                aspect = None if aspect in ("rounding", "rounding-cast") else aspect
+            else:
+                aspect = E_cmp_values(E_bare(tgt), E_bare(r))
+        else:
+            aspect = E_cmp_values(E_bare(tgt), E_bare(r))
         if aspect:
             found.append((t, "target-" + aspect))
         k0 = np.dtype(s0[t]["dtype"]).kind
